@@ -100,7 +100,7 @@ fn observe_table<T: ReadableTable<u64, &'static [u8]>>(t: &T, table: u8) -> Resu
     Ok(((k, nonce), consistent))
 }
 
-fn observe_read(rt: &ReadTransaction) -> Result<(Option<(u64, u64)>, Option<(u64, u64)>, bool), String> {
+pub fn observe_read(rt: &ReadTransaction) -> Result<(Option<(u64, u64)>, Option<(u64, u64)>, bool), String> {
     let mut cons = true;
     let mut one = |def: TableDefinition<u64, &'static [u8]>, table: u8| -> Result<Option<(u64, u64)>, String> {
         match rt.open_table(def) {
@@ -118,7 +118,7 @@ fn observe_read(rt: &ReadTransaction) -> Result<(Option<(u64, u64)>, Option<(u64
     Ok((kx, ky, cons))
 }
 
-fn write_all(wt: &WriteTransaction, k: u64, nonce: u64) -> Result<(), String> {
+pub fn write_all(wt: &WriteTransaction, k: u64, nonce: u64) -> Result<(), String> {
     for (def, table) in [(TX, 0u8), (TY, 1u8)] {
         let mut t = wt.open_table(def).map_err(|e| format!("{e:?}"))?;
         t.insert(0u64, counter_val(k, nonce).as_slice()).map_err(|e| format!("{e:?}"))?;
@@ -686,13 +686,19 @@ impl Check for C03 {
         }
         Ok(out)
     }
-    fn extra(&self, _tier: Tier, _seed: u64, acc: &mut crate::driver::Acc) -> Vec<(Failure, Option<Tape>)> {
+    fn extra(&self, tier: Tier, _seed: u64, acc: &mut crate::driver::Acc) -> Vec<(Failure, Option<Tape>)> {
         acc.extra.insert("directed_regressions_run".into(), json!(1));
-        match catch(directed_read_registered) {
+        let mut out = match catch(directed_read_registered) {
             Ok(Ok(())) => vec![],
             Ok(Err(f)) => vec![(f, None)],
             Err(p) => vec![(Failure::new(format!("harness-panic:{}", normalize_sig(&p)), p), None)],
-        }
+        };
+        // enumerated grid of two-thread gate schedules (src/gates.rs)
+        let (st, fails) = crate::gates::run_grid(tier == Tier::Thorough, 8);
+        acc.extra.insert("gate_grid".into(), json!({"scenarios_run": st.run, "thread_parked_at_the_point": st.parked, "reader_saw_the_in_flight_commit": st.reader_saw_target,
+            "what": "one thread parked at one pause point while the other runs: every (pause point x 1PC/2PC/non-durable x durability pattern before x durability pattern after x cache size)"}));
+        out.extend(fails.into_iter().map(|f| (f, None)));
+        out
     }
     fn render(&self, tape: &Tape) -> Value {
         let (hist, points, r) = run_case(tape);
